@@ -35,6 +35,7 @@ import DSymVerif.Proofs.Delaney2dCover
 import DSymVerif.Proofs.Delaney2dGauss
 import DSymVerif.Proofs.Delaney2dCorners
 import DSymVerif.Proofs.Delaney2dSpecLink
+import DSymVerif.Proofs.Delaney2dClosedOrientable
 
 namespace DSymVerif.C08
 open DSymVerif.DS DSymVerif.D2 DSymVerif.SpecC08
@@ -609,6 +610,39 @@ theorem gauss_bonnet_nonorientable (s : Sym) (g : Good2d s) (o : OrbSym)
   rw [hos] at ho'
   cases ho'
   exact ⟨K, hK, hv⟩
+
+/-- **the Euler characteristic of a closed orientable symbol is even.**  For an oriented symbol
+    (loopless and bipartite) the three products s1∘s0, s2∘s1, s0∘s2 permute the black chambers,
+    their product is the identity, and their cycles are the (0,1)-, (1,2)-, (0,2)-orbits; with
+    sign π = (−1)^(n − #cycles) the value F − E + V = #orbits − n of the model's
+    `euler_characteristic` is even, and `trace_boundary` returns no boundary component. -/
+theorem chi_even_closed_orientable (y : DSymData) (h : ValidSym y) (hdim : y.dim = 2)
+    (ho : y.view.isOriented = true) (rep : Rep) :
+    Even (eulerCharacteristic ⟨y, rep⟩) ∧ traceBoundary ⟨y, rep⟩ = .ok [] := by
+  refine ⟨chi_even_oriented h hdim ho rep, ?_⟩
+  have hpin : y.view.PInvol := by rw [y.view_eq]; exact h.set.pinvol
+  have hl := (((C02.isWeaklyOriented_iff_bipartite y.view hpin).2).1 ho).1
+  apply traceBoundary_nil_of_loopless h hdim rep
+  intro i d hi h1 h2 e
+  have hop : y.view.op i d = some (y.dset.opU i d) := opSimple_eq_some.2 ⟨by show i ≤ y.dim; omega, h1, h2, rfl⟩
+  exact hl i d (by show i ≤ y.dim; omega) h1 h2 (by rw [hop, e])
+
+example : ValidSym exOriData ∧ exOriData.dim = 2 ∧ exOriData.view.isOriented = true :=
+  ⟨exOriData_valid, by decide +kernel, by decide +kernel⟩
+
+/-- **Gauss–Bonnet for closed orientable symbols, unconditionally**: on every oriented good 2D
+    symbol on which `orbifold_symbol` answers (symbols `…`, `…o`, `…oo`, … without `*` and `x`),
+    the curvature is twice the Euler characteristic of the orbifold named by the symbol. -/
+theorem gauss_bonnet_closed_orientable (s : Sym) (g : Good2d s) (ho : s.view.isOriented = true)
+    (o : OrbSym) (hos : orbifoldSymbol s = .ok o) :
+    ∃ K, curvature s = .ok K ∧ K.toRat = 2 * chiQ (orbOf o) := by
+  obtain ⟨K, o', hK, ho', hv⟩ := gauss_bonnet_conditional s g (parity_of_oriented g ho hos)
+  rw [hos] at ho'
+  cases ho'
+  exact ⟨K, hK, hv⟩
+
+example : Good2d exOri ∧ exOri.view.isOriented = true ∧ (orbifoldSymbol exOri).isOk = true :=
+  ⟨exOri_good, by decide +kernel, by decide +kernel⟩
 
 /-- the monitors: `symbolExact ⇒ genusMonitor ⇒ parityMonitor` -/
 theorem monitors_chain (s : Sym) :
